@@ -137,7 +137,7 @@ struct Recycle {
     /// Workers stop claiming new items once this is set.
     stop: Arc<AtomicBool>,
     /// Re-executes the harness so that it continues with item `next` (appending to the outputs).
-    exec: Box<dyn Fn(usize) -> !>,
+    exec: Box<dyn Fn(usize)>,
 }
 
 /// Number of worker threads lost to panic-while-panicking cases after which the process
@@ -231,6 +231,7 @@ fn drive(
             sink.flush();
             drop(sink);
             (recycle.as_ref().unwrap().exec)(next_out);
+            die(1, "internal error: re-exec returned");
         }
         // watchdog
         let now = Instant::now();
@@ -434,19 +435,8 @@ fn mode_conn(args: &[String]) -> ! {
         let mut seen = HashSet::new();
         if let Ok(old) = std::fs::read_to_string(&args[2]) {
             for l in old.lines() {
-                let mut f = l.split('|');
-                match (f.next(), f.next()) {
-                    (Some("f32"), Some(b)) => {
-                        if let Ok(b) = u32::from_str_radix(b, 16) {
-                            seen.insert(Aux::F32(b));
-                        }
-                    }
-                    (Some("f64"), Some(b)) => {
-                        if let Ok(b) = u64::from_str_radix(b, 16) {
-                            seen.insert(Aux::F64(b));
-                        }
-                    }
-                    _ => {}
+                if let Some(a) = Aux::parse_line(l) {
+                    seen.insert(a);
                 }
             }
         }
@@ -492,7 +482,7 @@ fn mode_conn(args: &[String]) -> ! {
                 .arg("--resume")
                 .arg(next.to_string())
                 .exec();
-            die(1, &format!("cannot re-exec: {}", err))
+            die(1, &format!("cannot re-exec: {}", err));
         }),
     };
     let sh2 = sh.clone();
